@@ -29,7 +29,7 @@ CONSTANTS
     Dev           \* set of named deviations from the design
 
 DevNames == {"absFinalClamp", "dirFromSystemSpan", "keepRolledBackPiece", "frontInsert", "dedupByPosition",
-             "noTrimOnFailure", "resetKeepsEvents", "commitBeforeAccept", "clampAdoptsDt", "recordStepTooShort"}
+             "noTrimOnFailure", "resetKeepsEvents", "commitBeforeAccept", "clampAdoptsDt", "recordStepTooShort", "perCallSuppression"}
 ASSUME Dev \subseteq DevNames
 
 Abs(x) == IF x < 0 THEN -x ELSE x
@@ -68,7 +68,8 @@ Init ==
 (***************************************************************************)
 Frame(target, evOn, cbOn, nested) ==
     [target |-> target, dir |-> Sgn(target - Cur), pc |-> "loop", evOn |-> evOn, cbOn |-> cbOn, nested |-> nested,
-     a |-> Cur, b |-> Cur, final |-> FALSE, newDt |-> dt, terminated |-> FALSE, start |-> Len(rows), dtAtCall |-> 0]
+     a |-> Cur, b |-> Cur, final |-> FALSE, newDt |-> dt, terminated |-> FALSE, start |-> Len(rows), dtAtCall |-> 0,
+     ev0 |-> Len(events)]      \* ev0: events recorded before this call (duplicate suppression is per call, as in the code)
 
 Call(target, evOn, cbOn) ==
     /\ Idle /\ ncalls < MAXCALLS
@@ -143,7 +144,11 @@ Underflow ==
 (* event handling for the step [a, b] just committed                        *)
 (***************************************************************************)
 RootsIn(a, b) == {r \in ROOTS : Between(a, r.t, b)}
-Recorded(r) == \E k \in 1..Len(events) : events[k].t = r.t /\ events[k].ev = r.ev
+(* the code suppresses a root only against what the CURRENT call has recorded (a continuation call that is handed the same event  *)
+(* function again records a root sitting on its first step's start once more - found by replaying model behaviours into the code)   *)
+(* This is a deviation the real code HAS ("perCallSuppression", in DevCode): replay and trace validation use it, the design        *)
+(* configurations do not, and OdeSystem_devPerCallSuppression.cfg shows that it violates NoEventTwice.                               *)
+Recorded(r) == \E k \in ((IF "perCallSuppression" \in Dev THEN frames[1].ev0 ELSE 0) + 1)..Len(events) : events[k].t = r.t /\ events[k].ev = r.ev
 (* along the direction of the step; ties between different events broken by ev id *)
 Before(dir, r1, r2) == Beyond(dir, r1.t, r2.t) \/ (r1.t = r2.t /\ r1.ev < r2.ev)
 RECURSIVE SortRoots(_, _)
@@ -186,7 +191,7 @@ HandleEvents ==
                                /\ frames' = [frames EXCEPT ![Len(frames)] = [f EXCEPT !.terminated = TRUE, !.pc = "post"]]
                                        \o <<[target |-> root, dir |-> Sgn(root - f.a), pc |-> "loop", evOn |-> FALSE,
                                              cbOn |-> FALSE, nested |-> TRUE, a |-> f.a, b |-> f.a, final |-> FALSE,
-                                             newDt |-> d2, terminated |-> FALSE, start |-> Len(rows) - 1, dtAtCall |-> d2]>>
+                                             newDt |-> d2, terminated |-> FALSE, start |-> Len(rows) - 1, dtAtCall |-> d2, ev0 |-> Len(events')]>>
               ELSE /\ frames' = [frames EXCEPT ![Len(frames)] = [f EXCEPT !.pc = "post"]]
                    /\ UNCHANGED <<rows, sol, dt>>
     /\ UNCHANGED <<t0, tf, dt0, status, ncalls>> /\ last' = "HandleEvents"
@@ -194,12 +199,14 @@ HandleEvents ==
 (***************************************************************************)
 (* after the step: adopt the proposed step, run callbacks                    *)
 (***************************************************************************)
+(* the proposed step is stored through the dt setter, which points it along the system's span t0 -> tf (the loop re-orients it  *)
+(* before every step); a clamped last step stores nothing                                                                      *)
+Adopted(f) == IF f.final /\ "clampAdoptsDt" \notin Dev THEN dt ELSE FixDir(f.newDt, tf, t0)
 Post ==
     /\ ~Idle /\ Top.pc = "post"
     /\ LET f == Top
-           adopted == IF f.final /\ "clampAdoptsDt" \notin Dev THEN dt ELSE f.newDt
        IN  /\ \E c \in (IF f.cbOn THEN CBDTS \cup {0} ELSE {0}) :
-                 dt' = IF c = 0 THEN adopted ELSE FixDir(c, tf, t0)      \* the dt setter fixes the sign against the system span
+                 dt' = IF c = 0 THEN Adopted(f) ELSE FixDir(c, tf, t0)      \* the dt setter fixes the sign against the system span
            /\ frames' = [frames EXCEPT ![Len(frames)] = [f EXCEPT !.pc = "loop"]]
     /\ UNCHANGED <<rows, t0, tf, dt0, status, sol, events, ncalls>> /\ last' = "Post"
 
@@ -213,7 +220,8 @@ Return ==
         THEN /\ frames' = Front(frames)
              /\ status' = "event"
         ELSE /\ frames' = << >>
-             /\ status' = IF f.terminated \/ status = "event" THEN "event" ELSE "done"
+             \* "done" is only written over "notrun"/"done": an earlier stop at an event or an earlier failure stays reported
+             /\ status' = IF f.terminated THEN "event" ELSE IF status \in {"event", "failed"} THEN status ELSE "done"
     /\ UNCHANGED <<rows, t0, tf, dt, dt0, sol, events, ncalls>> /\ last' = "Return"
 
 (***************************************************************************)
@@ -221,14 +229,19 @@ Return ==
 (***************************************************************************)
 Fault ==
     /\ FAULTS /\ ~Idle
+    \* user code runs (and can raise) in three places: the right-hand side during a step, the event functions while a step is
+    \* examined, the callbacks after a step
+    /\ \/ Top.pc = "loop" /\ Cur # Top.target /\ ~Top.terminated
+       \/ Top.pc = "events"
+       \/ Top.pc = "post" /\ Top.cbOn
     /\ frames' = << >>
     /\ status' = "failed"
-    /\ IF Top.pc = "events"
-       THEN \* raised inside event handling: the step under examination is rolled back with its piece
-            /\ rows' = Front(rows)
-            /\ sol' = DropPiece(sol, Top.a, Top.b)
-       ELSE UNCHANGED <<rows, sol>>
-    /\ UNCHANGED <<t0, tf, dt, dt0, events, ncalls>> /\ last' = "Fault"
+    \* whatever raises, the rows recorded so far stay: an event function that raises leaves the accepted step and its piece in place.
+    \* The step has been pointed at the target before the right-hand side runs; a callback runs after the proposed step was stored.
+    /\ dt' = CASE Top.pc = "post" -> Adopted(Top)
+               [] Top.pc = "loop" -> FixDir(dt, Top.target, Cur)
+               [] OTHER -> dt
+    /\ UNCHANGED <<rows, sol, t0, tf, dt0, events, ncalls>> /\ last' = "Fault"
 
 Reset ==
     /\ Idle /\ ncalls < MAXCALLS /\ ncalls' = ncalls + 1
